@@ -16,7 +16,7 @@ from ..rfc7518.derive_key import (
 )
 from ..rfc7518.jwe_encs import CBCHS2EncModel
 from ..registry import HeaderParameter
-from ..errors import InvalidEncryptionAlgorithmError
+from ..errors import InvalidEncryptionAlgorithmError, InvalidExchangeKeyError
 
 
 __all__ = ['ECDH1PUAlgModel', 'register_ecdh_1pu', 'JWE_ALG_MODELS']
@@ -112,8 +112,11 @@ class ECDH1PUAlgModel(JWEKeyAgreement):
 
         sender_key = recipient.sender_key
         recipient_key = recipient.recipient_key
-        assert sender_key is not None
         assert recipient_key is not None
+        self.check_key_type(recipient_key)
+        if sender_key is None:
+            raise InvalidExchangeKeyError("Missing sender key")
+        self.check_key_type(sender_key)
 
         ephemeral_key = recipient_key.import_key(headers["epk"])
         sender_shared_key = recipient_key.exchange_derive_key(sender_key)
